@@ -63,6 +63,11 @@ def systems(tier):
     # ... and in a box whose edge is a multiple of the spacing only up to round-off (2.1 / 0.3 = 7.000000000000001): no start point
     # may lie on the upper box face
     out.append(dict(types=["CH3"], molecules=[("CH3", 1)], box=[2.1, 2.0, 2.0], grid=None, kwargs=dict(grid_spacing=0.3), own_grid=True, devs=0))
+    # the molecule type declares an atom-level exclusion distance of 3 (as atomistic force fields do): at residue level still only
+    # the residue grown from is exempt from the force; with a force limit of 1 a right-angle turn (0.71 nm from the residue
+    # before the parent, force 3.2) has to be refused
+    out.append(dict(types=["CH5"], molecules=[("CH5", 1)], mol_nrexcl=3, kwargs=dict(max_force=1.0, maxiter=3, nrewind=2), box=[4.0, 4.0, 4.0],
+                    grid=[[0.75, 0.75, 0.75], [2.25, 1.25, 0.75], [1.25, 2.25, 2.25]], devs=2))
     # very different residue sizes (1.2 nm next to 0.15 nm): the small residues are tried 0.35 - 0.6 nm from the large one, far
     # beyond twice their own size and far inside the cut-off (twice the largest size)
     out.append(dict(types=["W", "CH3"], molecules=[("W", 1), ("CH3", 2)], box=[5.0, 6.0, 7.0], volumes={"W": 1.2, "S": 0.15},
